@@ -409,9 +409,8 @@ def native_replay(scratch_repo, pkg, harness_file_rel, test_text, tests=False, r
     env = kani_env()
     env["CARGO_TARGET_DIR"] = PLAYBACK_TARGET if pkg else PLAYBACK_TARGET + "-bevy"
     env["RUST_BACKTRACE"] = "0"
+    # (`cargo kani playback` takes no --tests: it runs `cargo test` for the package, integration tests included)
     cmd = ["cargo", "kani", "playback", "-Z", "concrete-playback"] + (["-p", pkg] if pkg else [])
-    if tests:
-        cmd += ["--tests"]
     cmd += ["--", name, "--exact"] if False else ["--", name]
     try:
         pr = subprocess.run(cmd, cwd=scratch_repo, env=env, stdout=subprocess.PIPE, stderr=subprocess.STDOUT, text=True, timeout=1800)
